@@ -363,8 +363,15 @@ static void run_case_post(void *ctx, mx_result_t *r)
     run_case(ctx, r);
 }
 
+#include "c01_keyless.h"
+
 static void run_group(long gi, void *unused)
 {
+    if (gi == ngroups)
+    {
+        k_run_group();
+        return;
+    }
     static gctx_t g;
     int v, ii, n;
     (void) unused;
@@ -449,6 +456,19 @@ int main(int argc, char **argv)
         static gctx_t g;
         mx_result_t r;
         int ci, pp, v, ii;
+        if (replay[0] == 'K')
+        {
+            kcase_t k;
+            if (sscanf(replay, "K;s=%d;i=%d;e=%d;m=%d", &k.ks, &k.ki, &k.ke, &k.ems) != 4 || k.ks >= KS_N || k.ki >= KI_N || k.ke >= KE_N)
+            {
+                return 2;
+            }
+            memset(&r, 0, sizeof(r));
+            snprintf(r.desc, sizeof(r.desc), "%s", replay);
+            k_run_case(&k, &r);
+            mx_replay_print(&r);
+            return 0;
+        }
         if (sscanf(replay, "cfg=%d;p=%d;v=%d;inj=%d", &ci, &pp, &v, &ii) != 4 || ci >= ncfg || ii >= ninj)
         {
             fprintf(stderr, "bad replay descriptor: %s\n", replay);
@@ -498,6 +518,6 @@ int main(int argc, char **argv)
             ngroups++;
         }
     }
-    mx_parallel(ngroups, run_group, NULL);
+    mx_parallel(ngroups + 1, run_group, NULL);
     return mx_finish(NULL);
 }
